@@ -52,6 +52,16 @@ class Report:
         """an idiom the rule does not know: analysis broken, neither pass nor violation"""
         self.broken.append("rule %s: %s" % (rule, what))
 
+    def attempt(self, fn, *a, **kw):
+        """run one rule family; an AnalysisBroken inside it is recorded (exit 2 unless another rule reports a violation)
+        instead of ending the whole check: the remaining rules still get to judge the tree"""
+        from .tu import AnalysisBroken
+        try:
+            return fn(*a, **kw)
+        except AnalysisBroken as e:
+            self.broken.append(str(e))
+            return None
+
     # -- finishing -----------------------------------------------------------
     def finish(self):
         known = {"findings": [], "fixed": []}
